@@ -397,6 +397,8 @@ func generate(r *rng.R, thorough bool, index int) *history {
 	if thorough {
 		n = 60 + r.Intn(120)
 	}
+	lateLarge := retry && r.Chance(50)
+	lateUntil := n/3 + r.Intn(n/3+1)
 	for step := 0; step < n; step++ {
 		// classify live calls
 		var gated, blockedTimer, blocked []int
@@ -480,6 +482,10 @@ func generate(r *rng.R, thorough bool, index int) *history {
 			do(opJSON{K: "exec", C: newCall(), DT: dt(), Exec: ex})
 		case x < 80:
 			wk := workers[r.Intn(len(workers))]
+			if lateLarge && step < lateUntil && wk.SK.SC == pqs[0].scs[len(pqs[0].scs)-1] {
+				// the workers of the largest size class show up late: retries are queued, not handed over directly
+				continue
+			}
 			if syncing(wk) && !r.Chance(5) {
 				continue
 			}
